@@ -32,6 +32,9 @@ def build_cases(tier, seed):
         steps = spec["sim"]["steps"]
         # requests throughout the run so that the dispatcher always has work
         c = trace_case("C20", i, s, prof, BUILTIN, steps, ["C20"], opts=({"cosim_noops": 5 + i % 6} if i % 3 == 1 else {}))
+        if i % 4 == 2:
+            # drivers who join the fleet between two calls (vehicle rows added through the public state operations)
+            c["opts"] = dict(c.get("opts") or {}, cosim_ops={"every": 23 + i % 17, "kinds": ["add_human_vehicle"]})
         if i % 2 == 1:
             # simulation time is UTC whatever the host's time zone: every second case runs in a process set to another zone
             c["env"] = {"TZ": ["MST7", "JST-9", "CET-1CEST,M3.5.0,M10.5.0/3"][(i // 2) % 3]}
